@@ -11,6 +11,9 @@ Families (each enumerated completely, no sampling)
   flags every flag subset x call form x placement x callee shape x body args x template configuration
         (buffered / filter= / decorator= / buffer_filters / default filters), also from a call body and a loop;
         plus a def written inside a call that is itself invoked with content
+  kwonly keyword-only parameters after *args (defaulted before required and the other way round) x every positional
+        prefix x every subset of the keywords, wherever a signature is written: <%def name>, <%call/%ns:def args>
+        (caller.body(**args)), <%page args> (Template.render(*a, **kw)), <%block name args> (in place and self.blk(..))
   tree  every program tree of weight <= W over the full alphabet, and of weight W+1 over a smaller alphabet
         (calls with content nested in callee bodies, call bodies, nested defs, defs inside calls, loops,
          anonymous filtered blocks; caller.body() 0..n times, capture(caller.body), caller.named();
@@ -50,7 +53,10 @@ RULE = (
     "tuple of the pools SIGS x ARGS/ATTRS; flags: every (flag subset of {buffered, filter=f1 | f1,f2, decorator} (12), call "
     "form (9), placement top / nested / def inside the call, callee shape, body args, template configuration "
     "{plain, buffer_filters, default_filters, both}) tuple, each also issued from another call's body and from a loop, plus "
-    "the def-inside-a-call invoked with content; tree: every statement sequence (<= 3 statements per block) of weight <= W "
+    "the def-inside-a-call invoked with content; kwonly: every (signature with keyword-only parameters after *args, positional "
+    "prefix, subset of the keywords given) tuple in a <%def> (9 call forms x placement x flag), in the args= of a call with "
+    "content (callee runs caller.body(ARGS)), in <%page args> (render(ARGS)) and in <%block name args> (rendered in place "
+    "with the page's values and called as self.blk(ARGS)); tree: every statement sequence (<= 3 statements per block) of weight <= W "
     "over the full alphabet and of weight W+1 over a smaller alphabet, where a call weighs 1 + 1 per flag + 1 for a form "
     "other than ${f()} / <%call expr> + 1 for body args + 1 for nested placement + 1 for a def inside the call, and "
     "caller.body() / capture(caller.body) / caller.named() / % for / <%block filter> weigh 1 each; call nesting <= depth; "
@@ -94,9 +100,9 @@ def alphabets():
         "core": ir.Alphabet("core", forms=("bare", "tcall", "tself"), flags=(N_, B_, F_), bodyargs=(0, 1), cb_modes=("plain",),
                             nested=False, blocks=False, form_cost={"tself": 1}, **cost),
         # one weight deeper, quick tier: ${f()} and <%call>; {none, buffered}; def inside the call; caller.body(),
-        # caller.named(); % for
+        # caller.named() (no loops: the quick tier has to fit 60 s on a heavily shared machine)
         "mini": ir.Alphabet("mini", forms=("bare", "tcall"), flags=(N_, B_), bodyargs=(0,), cb_modes=("plain",),
-                            nested=False, blocks=False, **cost),
+                            nested=False, blocks=False, loops=False, **cost),
     }
 
 
